@@ -1039,6 +1039,11 @@ func loadViewFromFixedLengthTextFile(ctx context.Context, fp *file.Reader, fileI
 		r = fp
 	}
 
+	if fileInfo.SingleLine && len(fileInfo.DelimiterPositions) < 1 {
+		// A single-line record is as long as the last position: without positions no record ever consumes data.
+		return nil, fmt.Errorf("invalid delimiter position: S%s", fixedlen.DelimiterPositions(fileInfo.DelimiterPositions))
+	}
+
 	reader, err := fixedlen.NewReader(r, fileInfo.DelimiterPositions, fileInfo.Encoding)
 	if err != nil {
 		return nil, err
